@@ -36,7 +36,7 @@ Theorem C09_quiescent_after_commit : forall dbapi closed conn_of,
   aget (g_uows G') (ss_conn s) = None /\ aget (g_smap G') (ss_id s) = None.
 Proof. exact quiescent_after_commit. Qed.
 
-Definition c9g : cfg := mkcfg true false false false false [mkcls true true 0 [mkcol true false; mkcol false false] []].
+Definition c9g : cfg := mkcfg true false false false false [mkcls true true 0 [mkcol true false true; mkcol false false true] []].
 Definition c9ins k v := mkev 0 0 [Some k; Some v] [true;true] [] [0%nat;1%nat] false true [false;false].
 Definition c9d := [mkobj 0 [false;true] [] true false].
 Example C09_example :
